@@ -92,7 +92,9 @@ def problem_descs(allow_tabular=True, allow_shipped=True, rot=0):
     opts = []
     if allow_tabular:
         opts.append(mdp_specs(max_states=6, min_states=2, max_actions=3, max_events=3, allow_pol0=False, chain="hub",
-                              reward_scales=(0, 0)).map(lambda s: dict(kind="tabular", spec=s)))
+                              reward_scales=(0, 0)).flatmap(
+            lambda s: st.sampled_from([None, None, "none", "target_none"]).map(
+                lambda c: dict(kind="tabular", spec=dict(s, enc=dict(s["enc"], **({"config_attr": c} if c else {})))))))
     if allow_shipped:
         sh = SHIPPED_SMALL[rot % len(SHIPPED_SMALL):] + SHIPPED_SMALL[: rot % len(SHIPPED_SMALL)]
         opts.append(st.sampled_from(sh).map(lambda kp: dict(kind=kp[0], params=dict(kp[1]))))
